@@ -150,9 +150,11 @@ struct ListCk {
     // the inserted copies get the same (key, uid) as the source elements: uid duplicates are legal in the model (positions identify them)
     setctxf("List.%s(list)/%s%s%s", how == 0 ? "append" : how == 1 ? "prepend" : "insert", o.ref.n ? "non-empty" : "empty", how == 2 ? "/pos=" : "", how == 2 ? pn : "");
     hist.addf("%s(other list of %lu) at #%lu\n", how == 0 ? "append" : how == 1 ? "prepend" : "insert", (unsigned long)o.ref.n, (unsigned long)pi);
+    Vec<SEnt> src(o.ref);   // snapshot: the argument may be the list itself
+    if (&o == &b) { setctxf("List.%s(list)/arg=self%s%s", how == 0 ? "append" : how == 1 ? "prepend" : "insert", how == 2 ? "/pos=" : "", how == 2 ? pn : ""); cnt("op_insert_list_self"); }
     if (how == 0) b.c->append(*o.c); else if (how == 1) b.c->prepend(*o.c);
-    else { It pos = iterAt(*b.c, pi); It r = b.c->insert(pos, *o.c); size_t ri = indexOf(*b.c, r, b.ref.n + o.ref.n); if (ri != pi) fail(key("returned-iterator"), "insert(list) returned the iterator at position %ld, expected %lu (first inserted element, or the position itself for an empty list)", (long)ri, (unsigned long)pi); }
-    for (size_t i = 0; i < o.ref.n; ++i) b.ref.insert(pi + i, o.ref[i]);
+    else { It pos = iterAt(*b.c, pi); It r = b.c->insert(pos, *o.c); size_t ri = indexOf(*b.c, r, b.ref.n + src.n); if (ri != pi) fail(key("returned-iterator"), "insert(list) returned the iterator at position %ld, expected %lu (first inserted element, or the position itself for an empty list)", (long)ri, (unsigned long)pi); }
+    for (size_t i = 0; i < src.n; ++i) b.ref.insert(pi + i, src[i]);
     (void)nextUid; cnt("op_insert_list");
   }
   void opRemoveIt(Box& b, size_t idx) { setctxf("List.remove(iterator)/%s", idx == 0 ? "first" : idx + 1 == b.ref.n ? "last" : "middle"); hist.addf("remove(iterator #%lu)\n", (unsigned long)idx); It it = iterAt(*b.c, idx); It r = b.c->remove(it); b.ref.removeAt(idx); if (b.c->size() != b.ref.n) fail(key("size"), "size() %lu, model %lu", (unsigned long)b.c->size(), (unsigned long)b.ref.n); size_t ri = indexOf(*b.c, r, b.ref.n); if (ri != idx) fail(key("returned-iterator"), "remove returned the iterator at position %ld, expected the successor at %lu", (long)ri, (unsigned long)idx); cnt("op_remove_it"); }
@@ -214,7 +216,8 @@ static void listHistory(ListCk& ck, Rng& r, long idx) {
         setctx("List.copy-construct/independence"); if (r.chance(1, 2)) { cp.c->clear(); cp.ref.clear(); } else if (cp.ref.n) { cp.c->removeFront(); cp.ref.removeAt(0); } { Val v(77, -9); cp.c->append(v); SEnt e = { 77, -9 }; cp.ref.push(e); }
         ck.all(cp, universe); ck.all(m, universe); delete cp.c; ck.all(m, universe); cnt("op_copy_construct"); break; }
     case 10: { setctxf("List.operator=/onto-%s", other.ref.n ? "non-empty" : "empty"); hist.add("other = m\n"); *other.c = *m.c; other.ref = m.ref; otherTouched = true; cnt("op_assign"); break; }
-    case 11: if (n + other.ref.n <= 300) { int how = (int)r.below(3); size_t pi = how == 0 ? n : how == 1 ? 0 : r.below(n + 1); const char* pn = pi == n ? "end" : pi == 0 ? "begin" : "middle"; ck.opInsertList(m, other, how, pi, pn, uid); break; }
+    case 11: if (r.chance(1, 5) && 2 * n <= 300) { int how = (int)r.below(3); size_t pi = how == 0 ? n : how == 1 ? 0 : r.below(n + 1); const char* pn = pi == n ? "end" : pi == 0 ? "begin" : "middle"; ck.opInsertList(m, m, how, pi, pn, uid); break; }   // the list itself as argument
+             if (n + other.ref.n <= 300) { int how = (int)r.below(3); size_t pi = how == 0 ? n : how == 1 ? 0 : r.below(n + 1); const char* pn = pi == n ? "end" : pi == 0 ? "begin" : "middle"; ck.opInsertList(m, other, how, pi, pn, uid); break; }
     case 12: { // other := perturbed rebuild of m (near-equal lists for the equality oracle)
         Model want(m.ref); int pert = (int)r.below(5); static const char* pn[] = { "identical", "two-swapped", "one-key-changed", "last-dropped", "identical" };
         if (pert == 1 && want.n >= 2) { size_t i = r.below(want.n - 1); SEnt t = want[i]; want[i] = want[i + 1]; want[i + 1] = t; }
